@@ -26,6 +26,18 @@ def comparator_desc_len(F, f, t, cal):
     if cl is None:
         return False, "no comparator closure"
     pv = Prov(cl, copies=True)
+    if cal.name in ("sort_by_key", "sort_by_cached_key", "sort_unstable_by_key"):
+        # key closure: descending by length <=> the key is Reverse(len(item ..)) (possibly the first
+        # component of a tuple key)
+        from riolib.sym import Sym as _Sym
+        rets = {p.end[1] for p in _Sym(cl, copies=True).paths() if p.end[0] == "ret"}
+        if len(rets) != 1:
+            return False, "key closure with several results"
+        k = rets.pop()
+        if k[0] == "agg" and k[1] == "tuple" and k[3]:
+            k = k[3][0][1]
+        ok = k[0] == "agg" and (k[1] or "").endswith("Reverse") and k[3] and k[3][0][1][0] == "call" and k[3][0][1][1].rsplit("::", 1)[1] == "len" and mentions(k[3][0][1], lambda x: x == ("param", 2))
+        return ok, "key %s" % show(k, cl)
     first = None
     for bi, t2, c2 in cl.calls():
         if c2 and c2.name == "cmp" and c2.def_trait == "std::cmp::Ord":
